@@ -493,6 +493,19 @@ func journalPath(root, prop, variant string, shard int) string {
 	return filepath.Join(workDir(root, prop), fmt.Sprintf("journal-%s-%d.txt", variant, shard))
 }
 
+// NewStandaloneK returns a case context that is not attached to a worker (no
+// journal, no result file); used by fuzz targets that reuse the monitors.
+func NewStandaloneK(p *Property, stream string) *K {
+	c := &Ctx{Prop: p, Tier: "thorough", Seed: 0, Shard: 0, NShards: 1, Root: os.TempDir(),
+		skip: map[string]bool{}, nt: map[uint64]struct{}{}, perStrm: map[string]int{}, replay: &ReplaySpec{Stream: stream}}
+	c.res = &ShardResult{Monitors: map[string]*MonStat{}, Counters: map[string]int64{}, Maxes: map[string]float64{}, Sets: map[string]map[string]int{}}
+	c.current.Store("")
+	return &K{c: c, Stream: stream, Rng: NewRng(0, stream)}
+}
+
+// Violations lists what the monitors recorded on this context so far.
+func (k *K) Violations() []Violation { return k.c.res.Violations }
+
 // WorkerMain runs one shard.
 func WorkerMain(root string, p *Property, tier string, seed uint64, variant string, shard, nshards int, skipList []string) {
 	c := &Ctx{Prop: p, Tier: tier, Seed: seed, Shard: shard, NShards: nshards, Variant: variant, Root: root,
